@@ -1,6 +1,7 @@
-(* C15 - concrete instances: the hypotheses of the theorems are satisfiable (non-vacuity), and the
-   two clauses that the faithful model does not satisfy are refuted by explicit witnesses
-   (vm_compute).  Corollaries of the interleaving theorem for the two concrete flows. *)
+(* C15 - concrete instances: the hypotheses of the theorems are satisfiable (non-vacuity); the
+   witnesses of the two defects repaired by commit 3e32ae1 (exp = 0 accepted; replay inside the
+   second named by exp, sequential and concurrent) with the verdicts of the repaired code
+   (vm_compute).  Corollaries of the interleaving theorem for the concrete flows. *)
 From FositeModel Require Import Base.Str Model.Scope Model.Assertion Proofs.JwtStore Proofs.AssertionProofs Proofs.JwtHistory.
 Local Open Scope Z_scope.
 
@@ -45,39 +46,34 @@ Example bearer_refused_after_exp :
   = [Acc "" "alice"; Acc "" ""; Rej EInvalidGrant].
 Proof. vm_compute. reflexivity. Qed.
 
-(* ---- finding 1: exp = 0 is taken for "no expiry" by MapClaims.Valid (verifyExp with required =
-   false) and then stored as the expiry of the jti: the assertion is accepted although it expired
-   in 1970, and -- its jti being forgotten at once -- as often as one likes *)
-Theorem client_assertion_unexpired_refuted :
-  exists tus clients nw st a st' cid e,
-    client_auth tus clients nw st a = (st', Acc cid "") /\
-    to_int64 (ca_exp a) = Some e /\ (e + 1) * 1000 <= nw.
-Proof.
-  exists [ex_tu], [ex_client], t0, [], (ex_ca "j1" 0), [("j1", 0)], "c0", 0.
-  split; [vm_compute; reflexivity|]. split; [reflexivity|]. vm_compute. discriminate.
-Qed.
-
-Example exp_zero_replayed_forever :
+(* ---- former finding 1 (repaired by 3e32ae1): exp = 0 was taken for "no expiry" by MapClaims.Valid
+   and then stored as the expiry of the jti.  The expiry instant is now also judged as the replay
+   memory judges it: the old witness is refused, at every presentation *)
+Example exp_zero_refused :
   snd (run ex_world (start_at t0) [OAuth (ex_ca "j1" 0); OAuth (ex_ca "j1" 0); OTick 86400000; OAuth (ex_ca "j1" 0)])
-  = [Acc "c0" ""; Acc "c0" ""; Acc "" ""; Acc "c0" ""].
+  = [Rej EInvalidClient; Rej EInvalidClient; Acc "" ""; Rej EInvalidClient].
 Proof. vm_compute. reflexivity. Qed.
 
-(* ---- finding 2: during the second named by exp the client assertion is still unexpired
-   (now.Unix() <= exp) while the replay memory has already dropped its jti (exp.Before(now)):
-   one assertion is accepted twice *)
-Theorem client_assertion_once_refuted :
-  exists w s a d c,
-    snd (run w s [OAuth a; OTick d; OAuth a]) = [Acc c ""; Acc "" ""; Acc c ""] /\
-    to_int64 (ca_exp a) <> Some 0.
-Proof.
-  exists ex_world, (start_at t0), (ex_ca "j1" 946684860), 60500, "c0".
-  split; [vm_compute; reflexivity|]. vm_compute. discriminate.
-Qed.
+(* ... and leaves nothing in the replay memory *)
+Example exp_zero_not_recorded :
+  jt (fst (run ex_world (start_at t0) [OAuth (ex_ca "j1" 0)])) = [].
+Proof. vm_compute. reflexivity. Qed.
 
-(* at the instant of exp itself the replay is still refused (by the test-and-set) *)
-Example client_assertion_refused_at_exp_instant :
-  snd (run ex_world (start_at t0) [OAuth (ex_ca "j1" 946684860); OTick 60000; OAuth (ex_ca "j1" 946684860)])
-  = [Acc "c0" ""; Acc "" ""; Rej EJtiKnown].
+(* ---- former finding 2 (repaired by 3e32ae1): during the second named by exp the client assertion
+   passed MapClaims.Valid (now.Unix() <= exp) while the replay memory had already dropped its jti.
+   The old witness: the replay half a second after the expiry instant is refused, as is every later one *)
+Example replay_in_final_second_refused :
+  snd (run ex_world (start_at t0)
+         [OAuth (ex_ca "j1" 946684860); OTick 60000; OAuth (ex_ca "j1" 946684860);
+          OTick 500; OAuth (ex_ca "j1" 946684860); OAuth (ex_ca "j1" 946684860); OTick 500; OAuth (ex_ca "j1" 946684860)])
+  = [Acc "c0" ""; Acc "" ""; Rej EJtiKnown; Acc "" ""; Rej EInvalidClient; Rej EInvalidClient; Acc "" ""; Rej EInvalidClient].
+Proof. vm_compute. reflexivity. Qed.
+
+(* a first presentation inside the second named by exp, after the expiry instant, is refused too;
+   at the expiry instant itself it is still accepted (once) *)
+Example first_presentation_around_exp :
+  snd (run ex_world (start_at t0) [OTick 60000; OAuth (ex_ca "j1" 946684860); OAuth (ex_ca "j1" 946684860); OTick 1; OAuth (ex_ca "j2" 946684860)])
+  = [Acc "" ""; Acc "c0" ""; Rej EJtiKnown; Acc "" ""; Rej EInvalidClient].
 Proof. vm_compute. reflexivity. Qed.
 
 (* ---- interleavings *)
@@ -89,15 +85,13 @@ Example race_three_threads :
   wins "j1" ts = 1%nat /\ map thread_result ts = [Some (Rej EJtiKnown); Some (Rej EJtiKnown); Some (Acc "c0" "")].
 Proof. vm_compute. split; reflexivity. Qed.
 
-(* the hypothesis of [at_most_one_winner] is necessary: inside the second named by exp two
-   simultaneous presentations of one client assertion both succeed *)
-Theorem client_race_refuted :
-  exists nw f sched j,
-    (wins j (snd (run_sched nw ([], [(f, TStart); (f, TStart)]) sched)) = 2)%nat.
-Proof.
-  exists (t0 + 60500), (ca_flow [ex_tu] [ex_client] (t0 + 60500) (ex_ca "j1" 946684860)), [0; 0; 1; 1]%nat, "j1".
-  vm_compute. reflexivity.
-Qed.
+(* the old witness of the concurrent form of finding 2: inside the second named by exp both
+   simultaneous presentations are now refused before they reach the test-and-set *)
+Example race_in_final_second_refused :
+  let f := ca_flow [ex_tu] [ex_client] (t0 + 60500) (ex_ca "j1" 946684860) in
+  let '(st, ts) := run_sched (t0 + 60500) ([], [(f, TStart); (f, TStart)]) [0; 0; 1; 1]%nat in
+  wins "j1" ts = 0%nat /\ st = [] /\ map thread_result ts = [Some (Rej EInvalidClient); Some (Rej EInvalidClient)].
+Proof. vm_compute. repeat split; reflexivity. Qed.
 
 (* JWT-bearer grant: the hypothesis of the interleaving theorem always holds (the handler has
    already refused an assertion that is past the instant of its exp), so for any number of
@@ -114,17 +108,45 @@ Proof.
   destruct (forallb _ _); [|discriminate]. now injection Hm as <-.
 Qed.
 
-(* private_key_jwt: the same for client assertions that are not past the instant of their exp *)
+(* private_key_jwt: since fix 3e32ae1 the same holds unconditionally for client assertions: a thread
+   reaches the test-and-set only with an exp whose instant has not passed *)
+Lemma ca_flow_live tus clients nw a e : f_mid (ca_flow tus clients nw a) = inr e -> nw <= e * 1000.
+Proof.
+  destruct (ca_flow_pre tus clients nw a) as [[x Hx]|(cid & j0 & Hpre & _ & _ & Hm')].
+  - unfold ca_flow in *. destruct (ca_pre tus clients nw a) as [y|[c j]]; cbn in *; [discriminate|discriminate].
+  - rewrite Hm'. destruct (to_int64 (ca_exp a)) as [e0|]; [|discriminate].
+    destruct (before_now nw e0) eqn:Hb; [discriminate|]. intros [= <-]. now apply not_before_iff.
+Qed.
+
 Theorem client_race_once tus clients nw st (asserts : list cassert) sched j :
-  (forall a e, In a asserts -> ca_jti a = JStr j -> to_int64 (ca_exp a) = Some e -> nw <= e * 1000) ->
   (wins j (snd (run_sched nw (st, map (fun a => (ca_flow tus clients nw a, TStart)) asserts) sched)) <= 1)%nat.
 Proof.
-  intros Hlive.
   rewrite <- (map_map (fun a => ca_flow tus clients nw a) (fun f => (f, TStart))).
   apply at_most_one_winner. intros f e Hin Hp Hm.
-  apply in_map_iff in Hin as [a [<- Hin]].
-  destruct (ca_flow_pre tus clients nw a) as [[x Hx]|(cid & j0 & _ & Hp' & Hj & Hm')]; [congruence|].
-  rewrite Hp' in Hp. injection Hp as ->. rewrite Hm' in Hm.
-  destruct (to_int64 (ca_exp a)) as [e0|] eqn:He; [|discriminate]. injection Hm as <-.
-  eapply Hlive; eassumption.
+  apply in_map_iff in Hin as [a [<- Hin]]. eapply ca_flow_live; eassumption.
+Qed.
+
+(* any mix of simultaneous client-assertion presentations and grant requests, any number, any
+   schedule, any initial replay memory: at most one of them consumes a given jti *)
+Inductive request :=
+| RClient (a : cassert)
+| RGrant (cl_id : string) (cl_grants : list string) (b : bassert).
+
+Definition request_flow (w : world) (nw : Z) (r : request) : jflow :=
+  match r with
+  | RClient a => ca_flow (w_tus w) (w_clients w) nw a
+  | RGrant cl gr b => ba_flow (w_bcfg w) (w_tus w) (w_ikeys w) nw cl gr b
+  end.
+
+Theorem race_once w nw st (reqs : list request) sched j :
+  (wins j (snd (run_sched nw (st, map (fun r => (request_flow w nw r, TStart)) reqs) sched)) <= 1)%nat.
+Proof.
+  rewrite <- (map_map (request_flow w nw) (fun f => (f, TStart))).
+  apply at_most_one_winner. intros f e Hin Hp Hm.
+  apply in_map_iff in Hin as [[a|cl gr b] [<- _]]; cbn [request_flow] in *.
+  - eapply ca_flow_live; eassumption.
+  - destruct (ba_flow_ok (w_bcfg w) (w_tus w) (w_ikeys w) nw cl gr b) as [[x Hx]|(k & e0 & Hfacts & Hflow)]; [congruence|].
+    rewrite Hflow in Hm. cbn [f_mid] in Hm.
+    destruct Hfacts as (_ & _ & _ & _ & _ & _ & _ & _ & Hspec). destruct Hspec as (_ & _ & Hle & _).
+    destruct (forallb _ _); [|discriminate]. now injection Hm as <-.
 Qed.
